@@ -32,6 +32,8 @@ VARINTS = [b"\x01", b"\x00", b"\x03", b"\xff\xff\xff\xff\x0f", b"\xfe\xff\xff\xf
            b"\xff\xff\xff\xff\xff\xff\xff\xff\xff\x01", b"\x80\x80\x80\x80\x80\x80\x80\x80\x80\x80\x01",
            b"\xff\xff\x03", b"\x80\x01"]
 QUICK_VALUES = 12
+for _v in (2**32, 2**32 + 1, 2**32 + 5, 2**40 + 3, 2**31, 2**33 - 1, -(2**32), 2**62):
+    VARINTS.append(recfmt.enc_varint(_v))
 
 
 # ------------------------------------------------------------------------------------
@@ -81,7 +83,41 @@ def corpus(seed):
     out.append(("v0+v1+v2", recfmt.encode_legacy(0, recs_legacy(2)) + recfmt.encode_legacy(1, recs_legacy(2, 2), codec=1)
                 + recfmt.encode_v2(4, recs_v2(2))))
     out.append(("v2+partial", a + b[: len(b) // 2]))
+    # snappy payloads in the xerial block framing the Java client writes
+    inner_v2 = b"".join(recfmt._enc_record_v2(i, i, f"k{i}".encode(), f"value{i}".encode() * 3, ())
+                        for i in range(3))
+    out.append(("v2-xerial", _v2_with_payload(7, xerial(inner_v2, 40), codec=2, n=3, lod=2)))
+    inner_v1 = b"".join(recfmt._enc_msg_legacy(1, i, 0, 1_600_000_000_000 + i, f"k{i}".encode(),
+                                               f"val{i}".encode() * 2) for i in range(3))
+    out.append(("v1-xerial", recfmt._enc_msg_legacy(1, 12, 2, 1_600_000_000_002, None, xerial(inner_v1, 30))))
     return out
+
+
+def xerial(data, block):
+    """xerial snappy framing: magic header, then [int32 length][raw snappy block]..."""
+    import cramjam
+    out = bytearray(struct.pack("!bccccccBii", -126, b"S", b"N", b"A", b"P", b"P", b"Y", 0, 1, 1))
+    for i in range(0, len(data), block):
+        blk = bytes(cramjam.snappy.compress_raw(data[i:i + block]))
+        out += struct.pack("!i", len(blk)) + blk
+    return bytes(out)
+
+
+def _v2_with_payload(base_offset, payload, *, codec, n, lod):
+    after_crc = struct.pack(">hiqqqhii", codec, lod, 0, 2, -1, -1, -1, n) + payload
+    crc = recfmt.crc32c(after_crc)
+    return struct.pack(">qiibI", base_offset, 4 + 1 + 4 + len(after_crc), 0, 2, crc) + after_crc
+
+
+def fix_crc_legacy(buf, start):
+    b = bytearray(buf)
+    (length,) = struct.unpack_from(">i", b, start + 8)
+    end = start + 12 + length
+    if length < 5 or end > len(b):
+        return bytes(b)
+    import zlib
+    struct.pack_into(">I", b, start + 12, zlib.crc32(bytes(b[start + 16:end])) & 0xFFFFFFFF)
+    return bytes(b)
 
 
 def own_builder_buffers():
@@ -225,6 +261,57 @@ def cases(name, buf, tier, seed):
             m = bytearray(buf[: s + 61]) + b"\x00\x01\x02garbage" * 3
             struct.pack_into(">i", m, s + 8, len(m) - 12)
             yield f"{name}/inner/garbage", fix_crc_v2(bytes(m), s), None
+    # xerial block-length fields (inside the compressed payload, checksum repaired)
+    if name.endswith("-xerial"):
+        s0, e0, magic = spans[0]
+        start = (s0 + 61 if magic >= 2 else s0 + 16 + 2 + 8 + 4 + 4) + 16
+        pos = start
+        k = 0
+        while pos + 4 <= e0 and k < 6:
+            (blen,) = struct.unpack_from(">i", buf, pos)
+            for val in (-2**31, -100000, -16, -5, -4, -2, -1, 0, 1, 2**31 - 1, blen + 1, blen - 1):
+                m = bytearray(buf)
+                struct.pack_into(">i", m, pos, val)
+                fixed = fix_crc_v2(bytes(m), s0) if magic >= 2 else fix_crc_legacy(bytes(m), s0)
+                yield f"{name}/xerial/{pos}/{val}", fixed, None
+            if blen <= 0:
+                break
+            pos += 4 + blen
+            k += 1
+    # inner message sets of legacy wrappers with inconsistent lengths (checksum repaired)
+    for (s, e, magic) in spans:
+        if magic < 2 and (buf[s + 17] & 7) in (1, 2, 3) and s == 0 and e == n:
+            codec = buf[s + 17] & 7
+            voff = s + (18 if magic == 0 else 26)
+            (klen,) = struct.unpack_from(">i", buf, voff)
+            voff += 4 + max(klen, 0)
+            (vlen,) = struct.unpack_from(">i", buf, voff)
+            try:
+                inner = recfmt.decompress(codec, buf[voff + 4:voff + 4 + vlen])
+            except Exception:  # noqa: BLE001
+                continue
+            variants = []
+            for val in (-2**31, -100, -13, -12, -11, -1, 0, 1, 13, 2**31 - 1, len(inner)):
+                mi = bytearray(inner)
+                if len(mi) >= 12:
+                    struct.pack_into(">i", mi, 8, val)
+                    variants.append((f"len0={val}", bytes(mi)))
+            # second inner message's length, and a truncated / empty inner set
+            if len(inner) >= 12:
+                (l0,) = struct.unpack_from(">i", inner, 8)
+                p2 = 12 + l0
+                for val in (-2**31, -12, -1, 0, 2**31 - 1):
+                    mi = bytearray(inner)
+                    if 0 < p2 and p2 + 12 <= len(mi):
+                        struct.pack_into(">i", mi, p2 + 8, val)
+                        variants.append((f"len1={val}", bytes(mi)))
+            variants += [("half", inner[: len(inner) // 2]), ("empty", b""), ("one", inner[:1]),
+                         ("eleven", inner[:11])]
+            for vn, inn in variants:
+                payload = recfmt.compress(codec, inn)
+                m = bytearray(buf[:voff]) + struct.pack(">i", len(payload)) + payload
+                struct.pack_into(">i", m, s + 8, len(m) - 12)
+                yield f"{name}/linner/{vn}", fix_crc_legacy(bytes(m), s), None
     # batches shorter than their format's header, random bytes
     rr = scenario.rng_for(seed, "C10", name, "rand")
     for k in range(40 if tier == "quick" else 400):
